@@ -90,6 +90,9 @@ def run_one(case, sync: bool):
         pool_cfg["uds"] = "/run/sim.sock"
     url = ("https" if case["tls"] else "http") + "://a.test/t/t0"
     spec = {"method": "POST", "url": url, "content": b"hello"}
+    if case.get("connect_timeout") is not None:
+        # the retry law does not depend on the request's timeouts: pauses are 0, 0.5, 1, 2, ... whatever the connect timeout is
+        spec["timeouts"] = {"connect": case["connect_timeout"], "read": 9.0}
     pool = build_pool(world, pool_cfg, sync=sync)
     if sync:
         out = sync_request(pool, spec)
@@ -212,11 +215,14 @@ def random_cases(draw):
     outs = ["ok"] + outcomes_for(tls, RETRYABLE) * 3 + outcomes_for(tls, OTHERS)
     attempts = draw(st.lists(st.sampled_from(outs), min_size=n + 2, max_size=n + 2))
     return {"retries": n, "transport": draw(st.sampled_from(["tcp", "uds"])), "tls": tls, "attempts": attempts,
-            "exchange": draw(st.sampled_from(EXCHANGE))}
+            "exchange": draw(st.sampled_from(EXCHANGE)), "connect_timeout": draw(st.sampled_from([None, 0.3, 0.6, 1.0, 7.0]))}
 
 
 def _quick_cases(tier):
-    return enumerate_cases(tier)
+    # the request's connect timeout rotates through absent / shorter than every pause / longer than every pause
+    for i, case in enumerate(enumerate_cases(tier)):
+        case["connect_timeout"] = (None, 0.3, 7.0)[i % 3]
+        yield case
 
 
 RULE = ("retries N in 0..4 x {tcp, unix socket} x {plain, TLS} x outcome sequence of length <= N+2 over {ok, ConnectError, "
